@@ -1,5 +1,5 @@
 (* CorrC06.v — observational form of C06 (find_jobs = per-job reference evaluator). *)
-From SV Require Import Base Json PyVal Query.
+From SV Require Import Base Json PyVal Query C06Collide.
 From Coq Require Import Uint63 PrimFloat FloatOps.
 
 (* math.isclose on binary64, following CPython's implementation; inputs are exact dyadics *)
@@ -39,12 +39,15 @@ Definition FUEL : nat := 12.
 Definition model_C06 (c : case_C06) : result (list str) :=
   find_job_ids (regex_lookup (c6_regex c)) isclose_dy FUEL (c6_jobs c) (c6_filter c).
 
+(* the reference evaluates the filter AS WRITTEN: a key given in two spellings ('a' and 'sp.a') contributes both
+   conditions (before the repair recorded as C06 tag 2 the implementation's dict(...) kept one of them).  On collision-free
+   filters this is job_matches (C06Collide.job_matches_all_eq). *)
 Definition reference_C06 (c : case_C06) (j : job) : result bool :=
-  job_matches (regex_lookup (c6_regex c)) isclose_dy true FUEL (c6_filter c) j.
+  job_matches_all (regex_lookup (c6_regex c)) isclose_dy true FUEL (c6_filter c) j.
 
 (* non-short-circuit evaluation: Ok iff every operator application on this job's own data is defined *)
 Definition strict_C06 (c : case_C06) (j : job) : result bool :=
-  job_matches (regex_lookup (c6_regex c)) isclose_dy false FUEL (c6_filter c) j.
+  job_matches_all (regex_lookup (c6_regex c)) isclose_dy false FUEL (c6_filter c) j.
 
 Definition mismatch_C06 (c : case_C06) : bool :=
   match model_C06 c, c6_obs c with
